@@ -164,6 +164,17 @@ def directed(tier):
                       'cfgs': [{'name': 'c', 'period': 10, 'vars': vars_, 'kind': 'ok'}],
                       'ops': [['add', 0], ['start', 0], ['sleep', 0.1], ['stop', 0], ['delete', 0]],
                       'knobs': {'line_mean': 0, 'p_stall': 0.0, 'needs_resending': False, 'lat': (0.001, 0.001)}})
+    # a configuration that is rejected because a default-typed variable in the middle of its list is missing, then added
+    # again after the Crazyflie came back with a firmware that has it
+    for pos in (0, 1, 2):
+        for how in ('close', 'drop'):
+            n += 1
+            names = ['g.u8_0', 'g.u16_1', 'g.f_2']
+            names.insert(pos, 'nosuch.variable')
+            plans.append({'seed': 960000 + n, 'scenario': 'directed-readd-after-upgrade', 'device': dev,
+                          'cfgs': [{'name': 'c', 'period': 20, 'vars': [['toc', nm, None] for nm in names], 'kind': 'missing'}],
+                          'ops': [['add', 0], ['reconnect', how, True], ['add', 0], ['start', 0], ['sleep', 0.1], ['stop', 0]],
+                          'knobs': {'line_mean': 0, 'p_stall': 0.0, 'needs_resending': False, 'lat': (0.001, 0.001)}})
     for period in (0, 5, 9, 10, 20, 2540, 2550, 2560, 5000):
         n += 1
         plans.append({'seed': 960000 + n, 'scenario': 'directed-period-%d' % period, 'device': dev,
